@@ -498,6 +498,9 @@ def run(ctx) -> None:
     ctx.guard(r05_5, verified)
     ctx.guard(r05_6)
     ctx.guard(r05_7)
+    # every zip value that is present is looked up (and refused when unknown): the compression condition is presence, not truthiness
+    from .c04 import r04_2
+    ctx.guard_as("R05.8", r04_2)
     ctx.note("explicitly empty `algorithms=[]` is treated like an absent list by the code (`if algorithms:`); the statement's "
              "reading is ambiguous against the documented API - observation only, no verdict")
     ctx.assume("the frozen tables of jv/spec/tables.py (property statement + docs/guide/algorithms.rst)")
